@@ -1587,6 +1587,23 @@ func describeCond(w *World, v ssa.Value, depth int, inline func(*ssa.Function)) 
 			}
 			_, c1 := constString(x.X)
 			_, c2 := constString(x.Y)
+			if isStringType(x.X.Type()) {
+				// a comparison of a string with a spelling - a constant, or an element of a list of spellings the function was
+				// handed: described by what is compared, not by how the spellings are supplied
+				var what []string
+				for _, o := range []ssa.Value{x.X, x.Y} {
+					if ld, ok := stripIdentity(o).(*ssa.UnOp); ok && ld.Op == token.MUL {
+						if fa, ok := ld.X.(*ssa.FieldAddr); ok {
+							tn, f, _, _ := fieldOf(fa)
+							what = append(what, tn+"."+f)
+						}
+					}
+				}
+				if len(what) > 0 {
+					sort.Strings(what)
+					return []string{"cmp-string(" + strings.Join(what, ",") + ")"}
+				}
+			}
 			if c1 || c2 {
 				return []string{"cmp-const-string"}
 			}
@@ -1696,6 +1713,17 @@ func wirePadSpellings(w *World, wc *wireCtx, r *Report) {
 				case ssa.CallInstruction:
 					if g := x.Common().StaticCallee(); g != nil && w.isSubjectFunc(g) && g.Pkg == w.Parser {
 						scan(g, depth+1)
+						// spellings handed over as a list literal ([]string{"'\x00'", ...}) to a helper that compares with its elements
+						for _, a := range x.Common().Args {
+							for _, v := range variadicOperands(a) {
+								if v == nil {
+									continue
+								}
+								if s, ok := constString(v); ok {
+									recognised[s] = true
+								}
+							}
+						}
 					}
 				case *ssa.Lookup:
 					// a set literal of spellings: map[string]bool{...}[s]
